@@ -19,6 +19,9 @@ WInit == avail = [r \in Resources |-> 0] /\ waiting = [t \in Threads |-> <<0, 0>
 Prod(r, n) == avail' = [avail EXCEPT ![r] = @ + n] /\ UNCHANGED <<waiting, enq>>
 Inv(t, r, need) == waiting[t] = <<0, 0>> /\ waiting' = [waiting EXCEPT ![t] = <<r, need>>] /\ UNCHANGED <<avail, enq>>
 Res(t, r, c) == waiting[t][1] = r /\ waiting' = [waiting EXCEPT ![t] = <<0, 0>>] /\ avail' = [avail EXCEPT ![r] = @ - c] /\ UNCHANGED enq
+\* a response that is only possible after the resource was produced (a suspended task continues only after resume was called: the Prod event is logged before
+\* the resume call, the response after suspend returned, so in every correct execution the unit is available)
+ResS(t, r, c) == waiting[t][1] = r /\ avail[r] >= c /\ waiting' = [waiting EXCEPT ![t] = <<0, 0>>] /\ avail' = [avail EXCEPT ![r] = @ - c] /\ UNCHANGED enq
 Enq(u) == u \notin enq /\ enq' = enq \cup {u} /\ UNCHANGED <<avail, waiting>>
 Begin(u) == u \in enq /\ enq' = enq \ {u} /\ UNCHANGED <<avail, waiting>>
 Satisfied(t) == waiting[t][1] # 0 /\ avail[waiting[t][1]] >= waiting[t][2]
